@@ -98,7 +98,11 @@ MODEL_PATHS = {("herm", "r", 2), ("sym", "r", 4), ("svd", "rc", 2), ("svd", "c",
 CLOSED3 = {("herm", "r", 3), ("sym", "r", 3)}
 
 # Takagi factorisation of complex symmetric matrices (SVD followed by the square root of a unitary matrix): not
-# instantiated by the models; loses accuracy for close singular values (measured up to 1.2e-12)
+# instantiated by the models; loses accuracy for close singular values (measured up to 1.2e-12).  Genuine defect
+# found by the thorough tier in this path: for exactly repeated singular values whose block of U^dagger V^* has
+# eigenvalue -1 the principal square root is taken across its branch cut and the factorisation is wrong by O(1)
+# (replays/C12/decomp-sym-518366ccc746805d.json; repair: notes/fixes/C12-takagi-complex-degenerate.patch;
+# `known_match` below recognises exactly this signature when an entry is added to known_findings.json).
 TAKAGI_C = {("sym", "c", 2), ("sym", "c", 3), ("sym", "c", 4), ("sym", "c", 6)}
 
 # tolerances relative to ||m||_F (unitarity: absolute).  "model" and "other" carry the 1e-13 of DESIGN.md (measured on
@@ -1234,6 +1238,23 @@ def classes(c):
     return out
 
 
+def known_match(entry, case, fail):
+    """known_findings.json matcher.  match = {"tol_class": <tolerance class>, "what": <prefix of the failure text>,
+    "repeated_rel_gap": g}: the failing case belongs to that class, fails with that message, and two of the
+    returned values coincide within g (relative to the largest) - the signature of the defect 'square root of the
+    unitary matrix taken across its branch cut on a degenerate block'.  Everything else stays armed."""
+    m = entry.get("match", {})
+    if "routine" not in case or m.get("tol_class") != tol_class(case):
+        return False
+    if not fail.what.startswith(m.get("what", "input not reproduced")):
+        return False
+    s = fail.detail.get("s")
+    if not s or not all_finite(s):
+        return False
+    g = m.get("repeated_rel_gap", 1e-6) * max(abs(x) for x in s)
+    return any(abs(s[i] - s[j]) <= g for i in range(len(s)) for j in range(i))
+
+
 def selftest():
     """oracle self-test, independent of the code under test: a decomposition computed by mpmath must pass the
     reconstruction/unitarity predicates, a corrupted one must not"""
@@ -1267,7 +1288,7 @@ def subchecks(ctx):
             rule="svd, reorder_svd, fs_svd (real, complex, real->complex) with factors, with and without error "
                  "bounds: reconstruction, unitarity of both factors, s >= 0, order, error bounds"),
         Sub("decomp-sym", decomp_case([0, 0, 1, 2], ("sym",)), prop_decomp, {"quick": 600, "thorough": 24000},
-            nontrivial=lambda c: structured(c) and case_key(c), classes=classes,
+            nontrivial=lambda c: structured(c) and case_key(c), classes=classes, known_match=known_match,
             rule="diagonalize_symmetric, reorder_diagonalize_symmetric, fs_diagonalize_symmetric (real and complex "
                  "symmetric input) with factors: reconstruction u diag(s) u^T, unitarity, s >= 0, order, error bounds"),
         Sub("values", decomp_case([3, 4]), prop_decomp, {"quick": 300, "thorough": 12000},
